@@ -71,9 +71,11 @@ def render_file(f):
     if f.get("gz"):
         import gzip
         import io
+        cuts = [int(x * len(data)) for x in f.get("gz_members", [])]
         buf = io.BytesIO()
-        with gzip.GzipFile(fileobj=buf, mode="wb", mtime=0) as g:
-            g.write(data)
+        for a, b in zip([0] + cuts, cuts + [len(data)]):
+            with gzip.GzipFile(fileobj=buf, mode="wb", mtime=0) as g:
+                g.write(data[a:b])
         data = buf.getvalue()
     return data
 
